@@ -145,6 +145,11 @@ class SMCSampler(MCMCSampler):
                 else:
                     beta_max = beta_try
             beta_star = beta_min
+            if beta_star <= beta_prev:
+                # The target cannot be met within the tolerance; take the
+                # smallest step the search can resolve so that the schedule
+                # always makes progress
+                beta_star = beta_max
 
             if self.adaptive_min_step and beta_star < 1.0:
                 min_step = min_step * (1 - beta_prev) / (1 - beta_star)
